@@ -134,6 +134,84 @@ def gen_case(rng):
     return case
 
 
+def gen_extra(rng):
+    """input classes the random stream reaches rarely or never: integer coordinates (Point / Shape built from Python
+    ints), rectangles left of / below the origin, straddling it or ending exactly at 0, region names that are prefixes
+    of each other, grids of 9, 10, 16, 100, 144, 256 cells, exact ties (overlap area equal to the area tolerance, gap equal
+    to the distance tolerance, smaller piece equal to the sliver bound)"""
+    kind = rng.choice(["ints", "negative", "negative", "regions", "biggrid", "tie"])
+    if kind == "biggrid":
+        r = gen_rect(rng)
+        n, m = rng.choice([(3, 3), (2, 5), (5, 2), (4, 4), (10, 10), (12, 12), (16, 16), (1, 100), (9, 1)])
+        return {"op": "grid", "r": r, "nrows": n, "ncols": m, "kind": "biggrid"}
+    if kind == "tie":
+        r = gen_rect(rng)
+        x0, x1 = r["cx"] - r["w"] / 2, r["cx"] + r["w"] / 2
+        y0, y1 = r["cy"] - r["h"] / 2, r["cy"] + r["h"] / 2
+        t = rng.choice(["aeps", "eps", "sliver-x", "sliver-y"])
+        if t == "aeps":         # common area exactly the area tolerance
+            e, g = F(rng.randrange(1, 5), 4), F(rng.randrange(1, 5), 4)
+            e, g = min(e, r["w"]), min(g, r["h"])
+            s = dict(gen_rect(rng), cx=x1 - e + 2, cy=y1 - g + 3, w=F(4), h=F(6), region=r["region"])
+            return {"op": "overlap", "r": r, "s": s, "eps": F(0), "aeps": e * g, "kind": "tie/aeps"}
+        if t == "eps":          # gap exactly the distance tolerance
+            e = rng.choice([F(1, 1024), F(1, 64), F(1, 4), F(1)])
+            s = dict(gen_rect(rng), cx=x1 + e + 1, cy=r["cy"], w=F(2), h=r["h"])
+            if rng.random() < 0.5:
+                s = dict(s, cy=y1 + e + s["h"] / 2)          # corner contact, gap e in both axes
+            return {"op": "touches", "r": r, "s": s, "eps": e, "aeps": F(0), "kind": "tie/eps"}
+        q = rng.choice([F(1, 128), F(1, 64), F(1, 4), F(1, 2)])
+        if t == "sliver-x":     # min(x - ll, ur - x) == ratio * h
+            d = q * r["h"]
+            return {"op": "xcut", "r": r, "x": rng.choice([x0 + d, x1 - d]), "ratio": q, "kind": "tie/sliver"}
+        d = q * r["w"]
+        return {"op": "ycut", "r": r, "x": rng.choice([y0 + d, y1 - d]), "ratio": q, "kind": "tie/sliver"}
+    case = gen_case(rng)
+    while case["op"] in ("bbox", "ar") and kind != "ints":
+        case = gen_case(rng)
+    rs = [k for k in ("r", "s") if k in case]
+    if kind == "ints":
+        m = 8
+        for k in rs:
+            case[k] = dict(case[k], **{f: case[k][f] * m for f in ("cx", "cy", "w", "h")})
+        for f in ("px", "py", "x"):
+            if f in case and (f != "x" or case["x"] >= 0):
+                case[f] = case[f] * m
+        if not all(core.frac(case[k][f]).denominator == 1 for k in rs for f in ("cx", "cy", "w", "h")):
+            return gen_extra(rng)
+        case["ints"] = True
+    elif kind == "negative":
+        r = case["r"]
+        how = rng.choice(["left", "straddle", "end-at-0", "start-at-0", "below"])
+        dx = {"left": r["cx"] + r["w"] + 3, "straddle": r["cx"], "end-at-0": r["cx"] + r["w"] / 2,
+              "start-at-0": r["cx"] - r["w"] / 2, "below": F(0)}[how]
+        dy = r["cy"] + r["h"] / 2 if how == "below" else rng.choice([F(0), r["cy"]])
+        for k in rs:
+            case[k] = dict(case[k], cx=case[k]["cx"] - dx, cy=case[k]["cy"] - dy)
+        if "px" in case:
+            case["px"], case["py"] = case["px"] - dx, case["py"] - dy
+        if "x" in case and case["x"] >= 0:
+            # the cut follows the rectangle; a cut that becomes negative means 'halve' (as written in the code)
+            case["x"] = case["x"] - (dy if case["op"] in ("split_v", "ycut") else dx)
+    else:
+        names = ["dsp", "dsp1", "ds", "d", "_", "__", "bram", "BRAM", "#"]
+        for k in rs:
+            case[k] = dict(case[k], region=rng.choice(names))
+    case["kind"] = case.get("kind", "") + "+" + kind
+    return case
+
+
+def mk_rect_c18(d, ints=False):
+    if not ints:
+        return fr.mk_rect(d)
+    from frame.geometry.geometry import Rectangle, Point, Shape
+    r = Rectangle(center=Point(int(d["cx"]), int(d["cy"])), shape=Shape(int(d["w"]), int(d["h"])),
+                  fixed=bool(d.get("fixed", False)), hard=bool(d.get("hard", False)), region=d.get("region", "_"))
+    loc = d.get("loc", "NOPOLY")
+    r.location = getattr(Rectangle.StogLocation, "NO_POLYGON" if loc == "NOPOLY" else loc)
+    return r
+
+
 def nontrivial(case):
     return case["op"] not in ("bbox",) or True
 
@@ -142,8 +220,8 @@ def nontrivial(case):
 def run_impl(case):
     if case["op"] == "hist":
         return run_hist_impl(case)
-    r = fr.mk_rect(case["r"])
-    s = fr.mk_rect(case["s"]) if "s" in case else None
+    r = mk_rect_c18(case["r"], case.get("ints", False))
+    s = mk_rect_c18(case["s"], case.get("ints", False)) if "s" in case else None
     return exec_op(case, r, s)
 
 
@@ -850,6 +928,9 @@ def run(ctx, out, replay=None):
     out.rule = ("random Rectangle method calls on lattice/dyadic rectangles; pairs drawn by relative configuration "
                 "(identical, edge, corner, nested, crossing, sliver, far); distinct by canonical hash of the case; "
                 "non-trivial = every case (each exercises one modelled method with an outcome that depends on the geometry).  "
+                "Extra stream: integer coordinates passed as Python ints, rectangles left of / below / straddling / ending exactly "
+                "at the origin, region names that are prefixes of each other, grids of 9..256 cells, exact ties (common area equal "
+                "to the area tolerance, gap equal to the distance tolerance, smaller piece equal to the sliver bound).  "
                 "Object histories: a pool of 2-4 related rectangles, 3-14 operations: the same read before and after a write to an "
                 "operand; all four fields of one object written in turn with a read after each; a returned rectangle and its parent "
                 "written independently; random mixes of writes (shift, snap against / onto another object, resize, flags, "
@@ -862,6 +943,9 @@ def run(ctx, out, replay=None):
         cases.append(c)
     while len(cases) < n:
         cases.append(gen_case(ctx.rng))
+    xrng = __import__("random").Random(f"C18-extra-{ctx.seed}")
+    for _ in range((300 if ctx.quick() else 5000) * mult):
+        cases.append(gen_extra(xrng))
     nh = (1200 if ctx.quick() else 20000) * mult
     hrng = __import__("random").Random(f"C18-hist-{ctx.seed}")
     for _ in range(nh):
